@@ -621,7 +621,175 @@ def r01e(ctx):
               "max_angle = arcsin(n(z1)/n0): the launch angle whose ray turns exactly at the higher endpoint", u(r[0].value) if r else "", key_detail="max angle")
 
 
+# ------------------------------------------------------------------------------------------------ R01f
+def r01f(ctx):
+    """Piecing of the z-integral across z_uniform: symbolic case analysis of _z_int_uniform_correction.
+
+    With F_d / F_s the antiderivatives valid below / above z_uniform, the integral from z0 to z1 is
+        same side:                 F_x(z1) - F_x(z0)
+        z0 deep,  z1 shallow:      F_s(z1) - F_d(z0) + [F_d(zu) - F_s(zu)]
+        z0 shallow, z1 deep:       F_d(z1) - F_s(z0) - [F_d(zu) - F_s(zu)]
+    Every return of the analytic branch is evaluated under each consistent truth assignment of its tests and compared, as a linear
+    form over the atoms F_x(.), with the expected telescoped sum."""
+    repo = ctx.repo
+    ctx.rule("R01f", "_z_int_uniform_correction pieces the integral across z_uniform correctly in all four region cases (analytic branch) and splits the numeric "
+             "branch at z_uniform with each piece in its own regime", expected=5, kind="S")
+    fn = repo.member(SP, "_z_int_uniform_correction")
+    c = f"{SP}._z_int_uniform_correction"
+    params = [a.arg for a in fn.args.args]
+    za, zb, zu, integ = params[0], params[1], params[2], params[5]
+
+    def truth(test, case):
+        """case: dict D0 (z0 below zu), D1 (z1 below zu), LT (z0 < z1) -> True/False/None(unknown)"""
+        t = u(test).replace(" ", "")
+        if t == f"{za}<{zu}":
+            return case["D0"]
+        if t == f"{zb}<{zu}":
+            return case["D1"]
+        if t == f"{za}<{zb}":
+            return case["LT"]
+        if t == f"{zb}<{za}" or t == f"{za}>{zb}":
+            return not case["LT"]
+        if isinstance(test, ast.Compare) and len(test.ops) == 1 and isinstance(test.ops[0], (ast.Eq, ast.NotEq)):
+            l, r = truth(test.left, case), truth(test.comparators[0], case)
+            if l is None or r is None:
+                return None
+            return (l == r) if isinstance(test.ops[0], ast.Eq) else (l != r)
+        if isinstance(test, ast.UnaryOp) and isinstance(test.op, ast.Not):
+            v = truth(test.operand, case)
+            return None if v is None else not v
+        if isinstance(test, ast.Name) and test.id in case:
+            return case[test.id]
+        return None
+
+    def F(call, case):
+        """atom for integrand(<z>, ..., deep=<expr>)"""
+        if not (isinstance(call, ast.Call) and u(call.func) == integ and call.args):
+            return None
+        arg = u(call.args[0])
+        kw = kwargs_of(call)
+        d = kw.get("deep")
+        if d is None:
+            return None
+        if isinstance(d, ast.Constant):
+            deep = bool(d.value)
+        else:
+            deep = truth(d, case)
+        if deep is None:
+            return None
+        return f"F{'d' if deep else 's'}_{arg}"
+
+    def run_block(stmts, case, env):
+        for st in stmts:
+            if isinstance(st, ast.Assign) and isinstance(st.targets[0], ast.Name):
+                env[st.targets[0].id] = st.value
+            elif isinstance(st, ast.If):
+                v = truth(st.test, case)
+                if v is None:
+                    return ("unknown", u(st.test))
+                r = run_block(st.body if v else st.orelse, case, env)
+                if r is not None:
+                    return r
+            elif isinstance(st, ast.Return):
+                return ("ret", st.value)
+            elif isinstance(st, ast.Raise):
+                return ("raise", None)
+            elif isinstance(st, ast.With):
+                r = run_block(st.body, case, env)
+                if r is not None:
+                    return r
+        return None
+
+    def lin(expr, case, env, depth=0):
+        """linear form {atom: coef} of a return expression over F-atoms"""
+        if isinstance(expr, ast.Name) and expr.id in env and depth < 6:
+            return lin(env[expr.id], case, env, depth + 1)
+        a = F(expr, case)
+        if a is not None:
+            return {a: 1}
+        if isinstance(expr, ast.BinOp) and isinstance(expr.op, (ast.Add, ast.Sub)):
+            l, r = lin(expr.left, case, env, depth), lin(expr.right, case, env, depth)
+            if l is None or r is None:
+                return None
+            out = dict(l)
+            sg = 1 if isinstance(expr.op, ast.Add) else -1
+            for k, v in r.items():
+                out[k] = out.get(k, 0) + sg * v
+            return {k: v for k, v in out.items() if v}
+        if isinstance(expr, ast.UnaryOp) and isinstance(expr.op, ast.USub):
+            l = lin(expr.operand, case, env, depth)
+            return None if l is None else {k: -v for k, v in l.items()}
+        return None
+    body = strip_doc(fn)
+    cases = [("both deep", {"D0": True, "D1": True}), ("both shallow", {"D0": False, "D1": False}),
+             ("upward through z_uniform", {"D0": True, "D1": False, "LT": True}), ("downward through z_uniform", {"D0": False, "D1": True, "LT": False})]
+    for label, base in cases:
+        for lt in ([True, False] if "LT" not in base else [base["LT"]]):
+            case = dict(base, LT=lt, numerical=False, derivative_special_case=False)
+            x, y = ("d" if case["D0"] else "s"), ("d" if case["D1"] else "s")
+            want = {f"F{y}_{zb}": 1, f"F{x}_{za}": -1}
+            if x != y:
+                sg = 1 if case["D0"] else -1
+                want[f"Fd_{zu}"] = want.get(f"Fd_{zu}", 0) + sg
+                want[f"Fs_{zu}"] = want.get(f"Fs_{zu}", 0) - sg
+            env = {}
+            r = run_block(body, case, env)
+            what = f"[{label}{'' if 'LT' in base else ', z0<z1' if lt else ', z0>z1'}] analytic integral = telescoped antiderivatives with the jump at z_uniform"
+            if r is None or r[0] != "ret":
+                ctx.unknown("R01f", c, what, f"control flow not resolved: {r}")
+                continue
+            got = lin(r[1], case, env)
+            if got is None:
+                ctx.unknown("R01f", c, what, f"return `{u(r[1])}` is not a linear combination of integrand values")
+                continue
+            ctx.check(got == want, "R01f", c, what, f"returned {got}, expected {want}", key_detail=f"piecing: {label}", loc=ctx.loc("pyrex.ray_tracing", r[1]))
+    # numeric branch: one piece on the same side; otherwise [z0, zu] in z0's regime + [zu, z1] in z1's regime
+    num = [n for n in ast.walk(fn) if isinstance(n, ast.If) and u(n.test) == "numerical"]
+    ok = len(num) == 1
+    if ok:
+        same = [n for n in num[0].body if isinstance(n, ast.If) and isinstance(n.test, ast.Compare) and f"{za} < {zu}" in u(n.test) and f"{zb} < {zu}" in u(n.test)]
+        ok = len(same) == 1
+        if ok:
+            env1 = local_env_block(same[0].body)
+            r1 = [x for x in same[0].body if isinstance(x, ast.Return)]
+            ok = len(r1) == 1 and is_call(r1[0].value, func=integ) and u(kwargs_of(r1[0].value).get("deep")) == f"{za} < {zu}" \
+                and is_call(env1.get(u(r1[0].value.args[0])), func="np.linspace") and [u(a) for a in env1[u(r1[0].value.args[0])].args[:2]] == [za, zb]
+            env2 = local_env_block(same[0].orelse)
+            r2 = [x for x in same[0].orelse if isinstance(x, ast.Return)]
+            ok2 = len(r2) == 1 and isinstance(r2[0].value, ast.BinOp) and isinstance(r2[0].value.op, ast.Add)
+            if ok2:
+                pieces = [r2[0].value.left, r2[0].value.right]
+                desc = []
+                for pc in pieces:
+                    if not is_call(pc, func=integ):
+                        ok2 = False
+                        break
+                    g = env2.get(u(pc.args[0]))
+                    desc.append((tuple(u(a) for a in g.args[:2]) if is_call(g, func="np.linspace") else None, u(kwargs_of(pc).get("deep"))))
+                ok2 = ok2 and sorted(desc, key=str) == sorted([((za, zu), f"{za} < {zu}"), ((zu, zb), f"{zb} < {zu}")], key=str)
+            ok = ok and ok2
+    ctx.check(ok, "R01f", c, "numeric branch: a single grid when both ends are on one side of z_uniform, else [z0, z_uniform] in z0's regime plus [z_uniform, z1] in z1's regime",
+              "", key_detail="numeric piecing")
+    # call sites: direct path integrates z0 -> z1; a turned-over path integrates z0 -> z_turn and z1 -> z_turn and adds the two
+    zi = repo.member(SP, "z_integral")
+    cs = [x for x in ast.walk(zi) if is_call(x, name="_z_int_uniform_correction", recv="self")]
+    lims = sorted((u(x.args[0]), u(x.args[1])) for x in cs)
+    ok = lims == sorted([("self.z0", "self.z1"), ("self.z0", "self.z_turn"), ("self.z1", "self.z_turn")]) and all(u(x.args[2]) == "self.z_uniform" for x in cs)
+    r = [u(x.value) for x in returns(zi)]
+    ctx.check(ok and "int_1 + int_2" in r, "R01f", f"{SP}.z_integral", "direct: z0 -> z1; turned over: (z0 -> z_turn) + (z1 -> z_turn), each pieced at z_uniform", str(lims), key_detail="integration limits")
+
+
+def local_env_block(stmts):
+    env = {}
+    for st in stmts:
+        for n in ast.walk(st):
+            if isinstance(n, ast.Assign) and isinstance(n.targets[0], ast.Name):
+                env[n.targets[0].id] = n.value
+    return env
+
+
 def run(ctx):
+    ctx.guard(r01f)
     ctx.guard(r01a)
     ctx.guard(r01b)
     ctx.guard(r01c)
@@ -631,6 +799,11 @@ def run(ctx):
 
 SELFTEST = {
     "faults": [
+        {"name": "direction of travel ignored when crossing z_uniform", "file": "pyrex/ray_tracing.py",
+         "old": "                    if z0<z1:\n                        return int_z1 - int_z0 + int_diff\n                    else:\n                        return int_z1 - int_z0 - int_diff",
+         "new": "                    return int_z1 - int_z0 + int_diff", "rule": "R01f"},
+        {"name": "numeric piece in the wrong regime", "file": "pyrex/ray_tracing.py", "old": "                                      deep=z1<z_uniform, **integrand_kwargs))", "new": "                                      deep=z0<z_uniform, **integrand_kwargs))",
+         "rule": "R01f"},
         {"name": "+sqrt(alpha*gamma) in log_term_1", "file": "pyrex/ray_tracing.py", "old": "        log_term_1 = ice.n0*n_z - beta**2 - np.sqrt(alpha*gamma)", "new": "        log_term_1 = ice.n0*n_z - beta**2 + np.sqrt(alpha*gamma)",
          "rule": "R01d"},
         {"name": "beta for n0 in _pathlen_integral", "file": "pyrex/ray_tracing.py", "old": "                            (ice.n0/np.sqrt(alpha) * (-z + np.log(log_1)/ice.a)\n                             + np.log(log_2) / ice.a))",
